@@ -5,6 +5,7 @@ use std::io::{self, BufRead, Write};
 mod util;
 mod ops_c13;
 mod ops_rpu;
+mod ops_file;
 mod ops_edit;
 mod ops_c08;
 mod ops_av1;
@@ -23,6 +24,7 @@ fn dispatch(parts: &[&str]) -> String {
         op if op.starts_with("cli.") => ops_cli::run(parts),
         op if op.starts_with("c08.") => ops_c08::run(parts),
         "rpu.ops" => ops_edit::run(parts),
+        op if op.starts_with("file.") => ops_file::run(parts),
         op if op.starts_with("rpu.") || op.starts_with("nalu.") => ops_rpu::run(parts),
         _ => "bad-op".to_string(),
     }
